@@ -57,6 +57,59 @@ pub const SPECIALS: &[&str] = &[
     "# c\n...\n# d\n",
 ];
 
+/// Parts that repeat one counted feature `n` times (aliases, anchors, tags, flow collections,
+/// documents, nesting levels): two of them together cross limits (128, 255 / 256) that neither
+/// crosses alone. Added after seeded change C15-m9 (a per-stream alias budget).
+pub const MANY_KINDS: [&str; 7] = ["aliases", "anchors", "tags", "flow", "docs", "nested-flow", "nested-block"];
+pub const MANY_SIZES: [usize; 3] = [70, 130, 300];
+pub fn many_part(kind: usize, n: usize) -> String {
+    let mut t = String::new();
+    match MANY_KINDS[kind % MANY_KINDS.len()] {
+        "aliases" => {
+            t.push_str("- &a x\n");
+            for _ in 0..n {
+                t.push_str("- *a\n");
+            }
+        }
+        "anchors" => {
+            for i in 0..n {
+                t.push_str(&format!("- &a{i} x\n"));
+            }
+            t.push_str(&format!("- *a{}\n", n - 1));
+        }
+        "tags" => {
+            t.push_str("%TAG !e! tag:e.example,2000:\n---\n");
+            for i in 0..n {
+                t.push_str(&format!("- !e!t{i} x\n"));
+            }
+        }
+        "flow" => {
+            for _ in 0..n {
+                t.push_str("- [a, {b: c}]\n");
+            }
+        }
+        "docs" => {
+            for i in 0..n {
+                t.push_str(&format!("--- d{i}\n"));
+            }
+        }
+        "nested-flow" => {
+            let d = n.min(120);
+            t.push_str(&"[".repeat(d));
+            t.push('x');
+            t.push_str(&"]".repeat(d));
+            t.push('\n');
+        }
+        _ => {
+            for i in 0..n.min(200) {
+                t.push_str(&" ".repeat(i));
+                t.push_str("k:\n");
+            }
+        }
+    }
+    t
+}
+
 fn valid_corpus() -> Vec<&'static str> {
     let mut v: Vec<&'static str> = corpus().iter().filter(|c| !c.fail && !c.yaml.contains('\u{feff}')).map(|c| c.yaml.as_str()).collect();
     v.extend(GOLDEN.iter().copied().filter(|g| !g.contains('\u{feff}')));
@@ -207,7 +260,7 @@ impl Property for C15P {
     fn rule(&self) -> String {
         "Histories of 2..4 streams, each drawn from: streams rendered by the C03 generator (directives incl. %TAG / %YAML, anchors reused \
          by name, keep-chomped block scalars, flow collections), the valid test-suite corpus, a list of hand-picked state-stressing parts \
-         (%TAG redefining '!' and '!!', open-ended plain scalars, flow single pairs, empty streams, comment-only streams) and token soups. \
+         (%TAG redefining '!' and '!!', open-ended plain scalars, flow single pairs, empty streams, comment-only streams), repetition parts (one counted feature — aliases, anchors, tags, flow collections, documents, nesting levels — repeated 70 / 130 / 300 times, all ordered pairs) and token soups. \
          A part not ending in a break gets one; a history with a part that is rejected on its own is skipped (counted). The parts are \
          joined with '...' lines. Oracle: the join parses (pull and push, StrInput and BufferedInput) to the concatenation of the parts' \
          events with anchor ids renumbered, and load_from_str(join) equals the concatenation of the parts' documents. \
@@ -221,6 +274,7 @@ impl Property for C15P {
         vec![
             StreamSpec::new("histories", cases(tier).div_ceil(BLOCK), false, &format!("{} generated histories of 2..4 parts", cases(tier))),
             StreamSpec::new("special-pairs", 1, true, &format!("all {} ordered pairs of the hand-picked parts", SPECIALS.len() * SPECIALS.len())),
+            StreamSpec::new("many-pairs", 1, true, &format!("all ordered pairs of the {} repetition parts ({:?} x n in {:?}: one counted feature repeated n times), and each of them three times in a row", MANY_KINDS.len() * MANY_SIZES.len(), MANY_KINDS, MANY_SIZES)),
         ]
     }
     fn run_block(&self, ctx: &mut Ctx, stream: &str, block: u64) {
@@ -233,6 +287,22 @@ impl Property for C15P {
                         ctx.record(json(), &f);
                     }
                 }
+            }
+            return;
+        }
+        if stream == "many-pairs" {
+            let parts: Vec<String> = (0..MANY_KINDS.len()).flat_map(|k| MANY_SIZES.iter().map(move |n| many_part(k, *n))).collect();
+            let mut run = |ctx: &mut Ctx, texts: Vec<String>| {
+                let json = || json!({"parts": texts});
+                if let Err(f) = ctx.eval(&json, |info| check_parts(info, &texts)) {
+                    ctx.record(json(), &f);
+                }
+            };
+            for a in &parts {
+                for b in &parts {
+                    run(ctx, vec![a.clone(), b.clone()]);
+                }
+                run(ctx, vec![a.clone(), a.clone(), a.clone()]);
             }
             return;
         }
